@@ -1175,6 +1175,30 @@ func (w *world) stepWipe(st mbt.Step) {
 	// the old job is dead when its storage is deleted: let background flushes / compactions of the retired
 	// operators' databases finish (they would panic on a vanished directory - in the harness process)
 	w.quiesce(w.c.WorkDir())
+	// the deleted storage is first overwritten in place (same files, new bytes) - what a reused name does on the local
+	// location (LocalDirectory.Write truncates in place) and what deleting means on storage that recycles blocks: a
+	// savepoint that still shares anything with the working storage (links instead of copies) does not survive it
+	shred := func(root string, skip string) {
+		filepath.WalkDir(root, func(p string, d os.DirEntry, err error) error {
+			if err != nil {
+				return nil
+			}
+			if d.IsDir() {
+				if skip != "" && p == skip {
+					return filepath.SkipDir
+				}
+				return nil
+			}
+			if f, err := os.OpenFile(p, os.O_WRONLY|os.O_TRUNC, 0); err == nil {
+				f.WriteString("deleted")
+				f.Close()
+				w.res.Count("files_overwritten_in_place_before_deletion", 1)
+			}
+			return nil
+		})
+	}
+	shred(w.c.WorkDir(), "")
+	shred(w.c.JobDir(), filepath.Join(w.c.JobDir(), "savepoints"))
 	// rm -rf of everything but the savepoints directory
 	var err error
 	for i := 0; i < 5; i++ {
